@@ -215,6 +215,7 @@ structure Sess where
   backing : Backing
   schema : Nat                    -- current schema (abstract name)
   vars : List (Nat × Int)         -- session variables
+  tx : Option (List Int) := none  -- explicit transaction open on the session's DuckDB connection: its pending writes
   deriving DecidableEq, Repr
 
 structure Srv where
@@ -225,6 +226,9 @@ structure Srv where
 
 inductive Q
   | setVar (n : Nat) (v : Int) | getVar (n : Nat) | useSchema (s : Nat) | curSchema | put (v : Int) | getAll
+  | begin | commit | rollback
+  /-- a statement that raises a Snowflake ProgrammingError (missing table, …) -/
+  | fail
   deriving DecidableEq, Repr
 
 inductive Req
@@ -238,6 +242,8 @@ inductive Resp
   | token (t : Token)
   | unauthorized (code : Nat)
   | status | val (v : Option Int) | schema (s : Nat) | rows (vs : List Int)
+  | error          -- the error JSON / ProgrammingError of a failing statement
+  | unsupported    -- BEGIN inside a transaction: a raw TransactionException in-process, outside the model (never generated)
   deriving DecidableEq, Repr
 
 def lookup (ss : List (Token × Sess)) (t : Token) : Option Sess := (ss.find? (·.1 == t)).map (·.2)
@@ -254,8 +260,23 @@ def runQ (se : Sess) (data : List (Nat × Int)) : Q → Sess × List (Nat × Int
   | .getVar n => (se, data, .val (getVar se.vars n))
   | .useSchema s => ({ se with schema := s }, data, .status)
   | .curSchema => (se, data, .schema se.schema)
-  | .put v => (se, data ++ [(se.inst, v)], .status)
-  | .getAll => (se, data, .rows ((data.filter (·.1 == se.inst)).map (·.2)))
+  | .put v =>
+    match se.tx with
+    | some w => ({ se with tx := some (w ++ [v]) }, data, .status)       -- pending, visible to this session only
+    | none => (se, data ++ [(se.inst, v)], .status)                       -- auto-commit
+  | .getAll => (se, data, .rows ((data.filter (·.1 == se.inst)).map (·.2) ++ se.tx.getD []))
+  | .begin =>
+    match se.tx with
+    | none => ({ se with tx := some [] }, data, .status)
+    | some _ => (se, data, .unsupported)
+  | .commit =>
+    match se.tx with
+    | some w => ({ se with tx := none }, data ++ w.map (fun v => (se.inst, v)), .status)
+    | none => (se, data, .status)                                         -- COMMIT without a transaction: success status
+  | .rollback => ({ se with tx := none }, data, .status)
+  /- `query_request` answers the error JSON and does nothing else; in-process `execute` raises and does nothing else:
+     an open transaction and its pending writes stay exactly as they were -/
+  | .fail => (se, data, .error)
 
 def step (s : Srv) : Req → Srv × Resp
   | .login tok b schema =>
